@@ -11,7 +11,7 @@ assignment copy the element id and do not throw (assumption, listed in the evide
 import z3
 
 from cxxvc.kernel import Kernel, LoopSpec, Lemma
-from cxxvc.interp import Obj, Ptr, Loc, Gap, VOID, ExcVal, ThrowEx
+from cxxvc.interp import Obj, Ptr, Loc, Gap, VOID, ExcVal, ThrowEx, Opt, MAX_DT
 from cxxvc import extract, models
 
 TU = "src/hgraph/types/metadata/ts_data_window_ops.cpp"
@@ -779,3 +779,120 @@ class SizeAllValid(Kernel):
 
 
 KERNELS += [SizeAllValid]
+
+
+# ---------------------------------------------------------------- eviction stash / cleared marker (C05_r6_3)
+class StashKernel(Kernel):
+    """TSWindowStorageCore keeps ONE pair (evicted_, evicted_time_) that doubles as the window's delta marker: a stash that holds an
+    element says 'this element was evicted at evicted_time_', an empty stash says 'the window was cleared at evicted_time_'
+    (cleared_time()).  A tick's delta must say exactly one of the two."""
+    tu = TU
+    filter = "TSWindowStorageCore"
+    cls = "TSWindowStorageCore"
+    property_ids = ("C05",)
+    scope = {"lo": 0, "hi": 3}
+
+    def setup(self, I):
+        ctx = I.ctx
+        core = Obj("TSWindowStorageCore", "this_window")
+        self.core = core
+        self.ev_has0, self.ev_id0, self.evt0 = z3.Bool("evicted_has0"), z3.Int("evicted_id0"), z3.Int("evicted_time0")
+        self.size0, self.head0 = z3.Int("size0"), z3.Int("head0")
+        ctx.store[(core.oid, "evicted_")] = Opt(self.ev_has0, self.ev_id0)
+        ctx.store[(core.oid, "evicted_time_")] = self.evt0
+        ctx.store[(core.oid, "size_")] = self.size0
+        ctx.store[(core.oid, "head_")] = self.head0
+        ctx.store[(core.oid, "element_binding_")] = Ptr(Obj("ValueTypeRef", "element_binding_"), z3.BoolVal(False))
+        ctx.assume(z3.And(self.size0 >= 0, self.head0 >= 0, self.evt0 >= 0))
+        self.t = z3.Int("modified_time")
+        ctx.assume(z3.And(self.t > 0, self.t <= MAX_DT))
+        return core, self.params(I)
+
+    def method_handler(self, obj, name, node):
+        if obj is self.core and name == "clear":
+            def clear(I, o, a, n):
+                I.ctx.write(self.core.loc("size_"), z3.IntVal(0))
+                I.ctx.write(self.core.loc("head_"), z3.IntVal(0))
+                return VOID
+            return clear
+        return Kernel.method_handler(self, obj, name, node)
+
+    def ctor_handler(self, qt, node):
+        if qt.endswith("ValueView"):
+            def mkview(I, args, n):
+                a = [I.ctx.rv(x) for x in args]
+                if len(a) == 1 and getattr(a[0], "cls", None) == "ValueView":
+                    return a[0]
+                o = Obj("ValueView", "element_view")
+                o.mem = a[1] if len(a) > 1 else None
+                return o
+            return mkview
+        if qt.endswith("Value"):
+            def mkval(I, args, n):
+                a = [I.ctx.rv(x) for x in args]
+                if len(a) == 1 and isinstance(a[0], Opt):
+                    return a[0]
+                if len(a) == 1 and getattr(a[0], "cls", None) == "ValueView":
+                    m = a[0].mem
+                    return Opt(z3.BoolVal(True), m if isinstance(m, z3.ExprRef) else self.elem_id)
+                raise Gap("Value constructed from %r" % (a,))
+            return mkval
+        return Kernel.ctor_handler(self, qt, node)
+
+    def now(self, ctx):
+        ev = ctx.store[(self.core.oid, "evicted_")]
+        return ev, ctx.store[(self.core.oid, "evicted_time_")]
+
+    @staticmethod
+    def cleared_time_spec(ev, evt):
+        return z3.If(ev.has, z3.IntVal(0), evt)
+
+
+class ClearValues(StashKernel):
+    name = "ts_data_window_ops.cpp:TSWindowStorageCore::clear_values"
+    fn_name = "clear_values"
+    title = "window clear_values: empty window, and the tick's delta says 'cleared at t' - not a stale eviction"
+
+    def params(self, I):
+        return {"modified_time": self.t}
+
+    def post(self, I, ret):
+        ctx = I.ctx
+        ev, evt = self.now(ctx)
+        ctx.oblige("ensures.window-empty", z3.And(ctx.store[(self.core.oid, "size_")] == 0, ctx.store[(self.core.oid, "head_")] == 0),
+                   kind="post-normal")
+        ctx.oblige("ensures.cleared-at-t,no-evicted-element[C05 the value at a tick equals the previous value with that tick's delta "
+                   "applied: a cleared window reports the clear, not an element that left it earlier]",
+                   z3.And(self.cleared_time_spec(ev, evt) == self.t, z3.Not(ev.has)), kind="post-normal")
+
+
+class ClearedTime(StashKernel):
+    name = "ts_data_window_ops.cpp:TSWindowStorageCore::cleared_time"
+    fn_name = "cleared_time"
+    title = "window cleared_time: the stash time when the stash is empty, never while it holds an evicted element"
+
+    def params(self, I):
+        return {}
+
+    def post(self, I, ret):
+        I.ctx.oblige("ensures.cleared_time=stash-empty?stash-time:never[C05]", ret == self.cleared_time_spec(
+            Opt(self.ev_has0, self.ev_id0), self.evt0), kind="post-normal")
+
+
+class RecordEvicted(StashKernel):
+    name = "ts_data_window_ops.cpp:TSWindowStorageCore::record_evicted"
+    fn_name = "record_evicted"
+    title = "window record_evicted: the dropped element is stashed with the tick time (so the tick is an eviction, not a clear)"
+
+    def params(self, I):
+        self.elem_id = z3.Int("evicted_element")
+        return {"element_memory": self.elem_id, "modified_time": self.t}
+
+    def post(self, I, ret):
+        ctx = I.ctx
+        ev, evt = self.now(ctx)
+        ctx.oblige("ensures.stash-holds-the-element-with-time-t[C05 the evicted element is the tick's removed value]",
+                   z3.And(ev.has, ev.value == self.elem_id, evt == self.t, self.cleared_time_spec(ev, evt) == 0), kind="post-normal")
+
+
+KERNELS += [ClearValues, ClearedTime, RecordEvicted]
